@@ -226,6 +226,9 @@ class Ctx:
                  "cluster_label_assignment": "Proofs/GenEquivLA", "solver": "Proofs/GenEquivSV", "cluster_metrics": "Proofs/GenEquivCM",
                  "solver_loop": "Proofs/GenEquivSL", "likelihood": "Proofs/GenEquivLK", "main_loop_results": "Proofs/GenEquivMR",
                  "front_single": "Proofs/GenEquivFE", "front_joint": "Proofs/GenEquivFE", "main_loop_suffix": "Proofs/GenEquivRS",
+                 "cm_repopulate": "Proofs/GenEquivPH", "cm_update_all": "Proofs/GenEquivPH", "la_predict": "Proofs/GenEquivPH",
+                 "ll_point": "Proofs/GenEquivLW", "ll_table": "Proofs/GenEquivLW", "gl_stats": "Proofs/GenEquivLW", "la_initial": "Proofs/GenEquivLW",
+                 "front_split": "Proofs/GenEquivGU", "admm_front": "Proofs/GenEquivGU", "admm_x": "Proofs/GenEquivGU", "pool": "Proofs/GenEquivGU",
                  "cluster_maintenance": "Proofs/GenEquivCR", "graphical_lasso": "Proofs/GenEquivGL",
                  "matrix_compression": "Proofs/GenEquivMC", "model_state": "Proofs/GenEquivMS",
                  "gl_optimize": "Proofs/GenEquivGO", "gl_setup": "Proofs/GenEquivGO", "gl_retrieve": "Proofs/GenEquivGO", "gl_update": "Proofs/GenEquivGO"}
